@@ -1,6 +1,178 @@
 //! Case generators (all randomness from rng::Rng seeded by the caller).
-use std::io::Write;
+//! G2: layout perturbation of well-formed sources — whitespace between tokens replaced, comments
+//! inserted at token gaps, `@typstyle off` directives, CRLF / exotic line ends — kept only when the
+//! result still parses without errors.
+use std::io::{BufRead, Write};
 
-pub fn dispatch(_mode: &str, _args: &[String], _out: &mut impl Write) -> bool {
-    false
+use typst_syntax::{Source, SyntaxKind as K, SyntaxNode};
+
+use crate::rng::Rng;
+use crate::{hex, unhex};
+
+fn leaf_spans(node: &SyntaxNode, off: &mut usize, out: &mut Vec<(usize, usize, K)>) {
+    if node.children().len() == 0 {
+        let l = node.text().len();
+        out.push((*off, *off + l, node.kind()));
+        *off += l;
+    } else {
+        for c in node.children() {
+            leaf_spans(c, off, out);
+        }
+    }
+}
+
+const WS_PLAIN: &[&str] = &[" ", "  ", "\n", "\n\n", "\n  ", " \n", "\n\n\n", "\n    ", "", "\t", " \n \n ", "\n\n\n\n"];
+const WS_EXOTIC: &[&str] = &["\r\n", "\r", "\u{2028}", "\u{0085}", "\x0b", "\x0c", "\u{2029}", "\r\n\r\n"];
+const COMMENTS: &[&str] = &[
+    "/* c */", "// c\n", "/* a\n   b */", "/* a\n * b\n */", " /* c */ ", " // c\n", "\n// c\n", "/**/", "//\n",
+    "/* @typstyle off */", "// @typstyle off\n", "/* x */ /* y */", "// a\n// b\n", "\n/* c */\n", "/* a\n\n  b */",
+];
+
+/// Which mutation classes are allowed.
+#[derive(Clone, Copy)]
+pub struct Opts {
+    pub exotic: bool,
+    pub comments: bool,
+    pub directives: bool,
+}
+
+pub fn perturb(src: &str, rng: &mut Rng, opts: Opts) -> Option<String> {
+    let source = Source::detached(src.to_string());
+    if source.root().erroneous() {
+        return None;
+    }
+    let mut spans = Vec::new();
+    let mut off = 0;
+    leaf_spans(source.root(), &mut off, &mut spans);
+    if spans.is_empty() {
+        return None;
+    }
+    let nmut = 1 + rng.below(4);
+    // collect edits (start, end, replacement), non-overlapping, applied right to left
+    let mut edits: Vec<(usize, usize, String)> = Vec::new();
+    for _ in 0..nmut {
+        let i = rng.below(spans.len());
+        let (s, e, k) = spans[i];
+        let choice = rng.below(10);
+        if k == K::Space && choice < 5 {
+            let pool = if opts.exotic && rng.chance(1, 4) { WS_EXOTIC } else { WS_PLAIN };
+            let mut rep = rng.pick(pool).to_string();
+            if rep.is_empty() {
+                rep = " ".to_string();
+            }
+            edits.push((s, e, rep));
+        } else if opts.comments && choice < 9 {
+            // insert a comment at the start of leaf i (a token gap)
+            let c = rng.pick(COMMENTS);
+            if !opts.directives && c.contains("@typstyle") {
+                continue;
+            }
+            edits.push((s, s, c.to_string()));
+        } else if k == K::Comma {
+            edits.push((s, e, String::new()));
+        } else if matches!(k, K::RightParen) && rng.chance(1, 2) {
+            edits.push((s, s, ",".to_string()));
+        } else {
+            let pool = if opts.exotic && rng.chance(1, 6) { WS_EXOTIC } else { WS_PLAIN };
+            edits.push((s, s, rng.pick(pool).to_string()));
+        }
+    }
+    edits.sort_by(|a, b| b.0.cmp(&a.0).then(b.1.cmp(&a.1)));
+    let mut text = src.to_string();
+    let mut last_start = usize::MAX;
+    for (s, e, rep) in edits {
+        if e > last_start {
+            continue;
+        }
+        text.replace_range(s..e, &rep);
+        last_start = s;
+    }
+    if opts.exotic && rng.chance(1, 40) {
+        text = text.replace('\n', "\r\n");
+    }
+    if text == src {
+        return None;
+    }
+    let s2 = Source::detached(text.clone());
+    if s2.root().erroneous() {
+        return None;
+    }
+    Some(text)
+}
+
+/// Take the smallest prefix of top-level markup children (or a random subtree's text) as a small case.
+pub fn shrink_slices(src: &str, rng: &mut Rng, max_len: usize) -> Option<String> {
+    let source = Source::detached(src.to_string());
+    let root = source.root();
+    // pick a random run of top-level children
+    let kids: Vec<&SyntaxNode> = root.children().collect();
+    if kids.is_empty() {
+        return None;
+    }
+    let a = rng.below(kids.len());
+    let mut text = String::new();
+    for k in &kids[a..] {
+        let t = (*k).clone().into_text();
+        if !text.is_empty() && text.len() + t.len() > max_len {
+            break;
+        }
+        text.push_str(&t);
+        if text.len() > max_len / 2 && rng.chance(1, 3) {
+            break;
+        }
+    }
+    let s2 = Source::detached(text.clone());
+    if text.trim().is_empty() || s2.root().erroneous() {
+        return None;
+    }
+    Some(text)
+}
+
+pub fn dispatch(mode: &str, args: &[String], out: &mut impl Write) -> bool {
+    match mode {
+        // gen SEED N MAXLEN FLAGS  (stdin: base sources, hex per line) -> N perturbed sources (hex per line)
+        "gen" => {
+            let seed: u64 = args[0].parse().unwrap();
+            let n: usize = args[1].parse().unwrap();
+            let max_len: usize = args[2].parse().unwrap();
+            let flags = args.get(3).map(|s| s.as_str()).unwrap_or("");
+            let opts = Opts {
+                exotic: flags.contains('x'),
+                comments: !flags.contains('n'),
+                directives: flags.contains('d'),
+            };
+            let stdin = std::io::stdin();
+            let bases: Vec<String> = stdin.lock().lines().map(|l| unhex(l.unwrap().trim())).collect();
+            let mut rng = Rng::new(seed);
+            let mut produced = 0;
+            let mut attempts = 0;
+            while produced < n && attempts < n * 40 {
+                attempts += 1;
+                let base = &bases[rng.below(bases.len())];
+                let small = if base.len() > max_len {
+                    match shrink_slices(base, &mut rng, max_len) {
+                        Some(s) => s,
+                        None => continue,
+                    }
+                } else {
+                    base.clone()
+                };
+                let mut cur = small;
+                let rounds = 1 + rng.below(3);
+                let mut ok = false;
+                for _ in 0..rounds {
+                    if let Some(t) = perturb(&cur, &mut rng, opts) {
+                        cur = t;
+                        ok = true;
+                    }
+                }
+                if ok {
+                    writeln!(out, "{}", hex(&cur)).unwrap();
+                    produced += 1;
+                }
+            }
+            true
+        }
+        _ => false,
+    }
 }
